@@ -148,7 +148,7 @@ async def search(ctx):
     import jobloopcorr
 
     await jobloopcorr.search(ctx, PID)
-    await _ck.run_scenarios(ctx, lambda ctx, run_: Observer(ctx, run_), ["nested_chain", "deferred_wakeup", "amended_consumer_rerun", "hold_recycle", "resource_race", "shrink_resources", "retarget_optional"])
+    await _ck.run_scenarios(ctx, lambda ctx, run_: Observer(ctx, run_), ["nested_chain", "deferred_wakeup", "amended_consumer_rerun", "hold_recycle", "resource_race", "shrink_resources", "retarget_optional", "deferred_on_detached_input", "hold_running_recycled"])
     import contextlib
 
     import corr_kernel
